@@ -19,12 +19,14 @@ CLAIMS["C01"] = {
     "text": "Theorems: chunking then reassembly is the identity for both senders, any window / chunk size / message (C01_pump_reassembles, C01_sendAll_reassembles[_code]); "
             "reassembly is compositional (C01_parse_append); end to end over the two endpoint models composed through ANY FIFO carrier prefix, for every interleaving of "
             "calls, frames from the peer, credit, cancellations and context ends: the messages a handler has received are a prefix of those the caller submitted "
-            "(C01_request_prefix), likewise responses (C01_response_prefix), and nothing is fabricated, duplicated or reordered (C01_request_no_fabrication). "
+            "(C01_request_prefix), likewise responses (C01_response_prefix), nothing is fabricated, duplicated or reordered (C01_request_no_fabrication), and COMPLETENESS: when a RecvMsg of the caller returned end-of-stream "
+            "the caller has received exactly the messages the handler submitted (C01_response_complete), likewise for the handler's end-of-requests "
+            "(C01_request_complete); the 'told OK' fact is the receiver's own observation, that the peer ended normally is derived. "
             "Hypotheses are the gRPC caller/handler contract (one SendMsg and one RecvMsg at a time) and FIFO delivery. Tied to the code by " + _W1 + " " + _SRV + " " + _CLI +
             " Payloads are keyed real bytes checked byte for byte by the harness; pump/sendAll are compared with the real senders on boundary and random sizes.",
     "design_ref": "DESIGN.md A2 (C01)",
-    "note": "Trusted: Lean kernel; FIFO, reliable carrier until it ends; harness/differ. Not proved: the completeness half ('EOF implies everything arrived') is "
-            "checked by the monitor (incomplete-on-ok) on every run, the theorem covers the prefix/safety half. Protobuf encoding of application messages is outside the model.",
+    "note": "Trusted: Lean kernel; FIFO, reliable carrier until it ends; harness/differ. Hypotheses of the completeness theorems: the carrier delivered everything emitted, the gRPC caller/handler contract, no send failed "
+            "(each shown necessary by a decide-checked counter-example); C01_response_ok_partial needs two more that tie the independently modelled ends together. Protobuf encoding of application messages is outside the model.",
     "technique": "Lean 4 round-trip and prefix-refinement theorems over composed endpoint models + step-exact correspondence in three worlds",
 }
 CLAIMS["C02"] = {
